@@ -164,7 +164,7 @@ TStore ==
     /\ Is("Store")
     /\ cur.ph = "store"
     /\ LET snap == { Ev.s[i].sid : i \in DOMAIN Ev.s } IN
-       /\ R("Dead") \/ snap \subseteq { i \in DOMAIN store : store[i].dl >= now }      \* Dead (and nothing foreign)
+       /\ R("Dead") \/ snap \subseteq DOMAIN store                                      \* Dead (and nothing foreign); expired records may linger
        /\ R("Kept") \/ { i \in DOMAIN store : store[i].dl > now } \subseteq snap       \* live records are kept
        /\ R("Deadline") \/ (\A i \in DOMAIN Ev.s : Ev.s[i].sid \in DOMAIN store => Ev.s[i].dl = store[Ev.s[i].sid].dl)
     /\ cur' = IdleCur
